@@ -59,6 +59,9 @@ func flipBit(t *rapid.T, b []byte, hot []int, label string) ([]byte, int) {
 	var i int
 	if len(hot) > 0 && rapid.IntRange(0, 2).Draw(t, label+".hot") == 0 {
 		by := rapid.SampledFrom(hot).Draw(t, label+".hotbyte")
+		if by >= len(b) {
+			by = len(b) - 1
+		}
 		i = by*8 + rapid.IntRange(0, 7).Draw(t, label+".hotbit")
 	} else {
 		i = rapid.IntRange(0, 8*len(b)-1).Draw(t, label+".bit")
